@@ -1,5 +1,5 @@
 """C12 objective selection: NL files with 0..3 objectives (sense x {linear, constant, abs, quadratic}) x objno
-{unset, 0..n+1} x multiobj {0,1} x option route {<solver>_options env, command line} x NL format {text, binary}
+{unset, 0..n+1} x multiobj {0,1} x option route {<solver>_options env, command line, option file with / without a final newline} x NL format {text, binary}
 x {quadratic objectives accepted, not accepted}, each through the scripted driver (one process per case).
 Oracle = reference selection function written from the property statement + semantic comparison of the delivered
 objective(s) (recorded SetLinearObjective/SetQuadraticObjective calls and the auxiliary constraints they refer to)
@@ -124,9 +124,9 @@ def cases_for(tier):
             for m in (0, 1):
                 for script in ('quadobj', 'noquadobj'):
                     if tier == 'thorough' or n < 3:
-                        combos = [(r, f) for r in ('env', 'arg') for f in ('text', 'binary')]
+                        combos = [(r, f) for r in ('env', 'arg') for f in ('text', 'binary')] + [('file', 'text'), ('filenl', 'binary')]
                     else:
-                        combos = [('env', 'text'), ('arg', 'binary')]
+                        combos = [('env', 'text'), ('arg', 'binary'), ('file', 'text')]
                     for route, fmt in combos:
                         out.append((tuple(spec), k, m, route, fmt, script))
     return out
@@ -243,6 +243,14 @@ def run_case(binary, wd, case):
     if route == 'env':
         toks = ([] if k is None else ['objno=%d' % k]) + (['multiobj=1'] if m else [])
         env_opts = {'vdriver_options': ' '.join(toks)}
+    elif route in ('file', 'filenl'):
+        # an option file (tech:optionfile): 'file' ends with the objno assignment and no final newline, 'filenl' has the
+        # assignments in the other order and a final newline
+        lines = ['multiobj=%d' % m] + ([] if k is None else ['objno=%d' % k])
+        os.makedirs(wd, exist_ok=True)
+        with open(os.path.join(wd, 'c12.opt'), 'w') as f:
+            f.write('# objective selection\n' + ('\n'.join(lines) if route == 'file' else '\n'.join(reversed(lines)) + '\n'))
+        env_opts = {'vdriver_options': 'tech:optionfile=c12.opt'}
     else:
         args = ('-AMPL',) + (() if k is None else ('obj:no=%d' % k,)) + ('obj:multi=%d' % m,)
     kw = {'nl_bytes': nl_binary(model)} if fmt == 'binary' else {'nl_text': model.nl()}
@@ -456,7 +464,7 @@ def _main(chk, tier, binary):
     vcheck.finalize_classes(chk)
     chk.set('rule', 'exhaustive: NL files with n in 0..3 objectives, objective i = {min,max} x {linear, constant only, '
             '|x0|+i+linear, (i+1)x0^2+linear} (%s) x objno {unset, 0..n+1} x multiobj {0,1} x {objno=/multiobj= in '
-            'vdriver_options, obj:no=/obj:multi= on the command line} x {text, binary NL} x {quadratic objective accepted, '
+            'vdriver_options, obj:no=/obj:multi= on the command line, objno=/multiobj= in an option file ending with / without a newline} x {text, binary NL} x {quadratic objective accepted, '
             'not accepted}%s; one driver process per case. Oracle: reference selection function + value comparison of each '
             'delivered objective (following aux variables through AbsConstraint / quadratic constraints / fixed variables) '
             'with the NL reference evaluator at %d points separating span{1,x0,x1,|x0|,x0^2}; `objno N code` line. '
@@ -464,7 +472,7 @@ def _main(chk, tier, binary):
             % ('all combinations' if tier == 'thorough' else 'all combinations for n<=2; for n=3 all 64 shape triples with alternating senses',
                '' if tier == 'thorough' else ' (for n=3 route and format are paired: env+text, arg+binary)', len(POINTS)))
     chk.set('bounds', {'n': [0, 3], 'shapes': SHAPES, 'senses': SENSES, 'objno': 'unset, 0..n+1', 'multiobj': [0, 1],
-                       'routes': ['env', 'arg'], 'formats': ['text', 'binary'], 'scripts': sorted(SCRIPTS)})
+                       'routes': ['env', 'arg', 'file', 'filenl'], 'formats': ['text', 'binary'], 'scripts': sorted(SCRIPTS)})
     chk.assumptions += [
         '.sol line `objno N code`: N is zero-based (sol.h writes objno_used()-1; ASL convention obj_no), so "objective k used" '
         'is N = k-1 and "no objective used" is N = -1; demanded: N = k-1 in single-objective mode, N = -1 when nothing was '
